@@ -973,27 +973,54 @@ func checkEvictionReachesPrimary(c *km.Ctx, rule string) {
 	if fn == nil {
 		return
 	}
-	var first ssa.CallInstruction
-	for _, ci := range km.CallsIn(fn) {
-		onPrimary := false
-		for _, a := range km.CallArgs(ci.Common()) {
-			if a != nil && mentionsField(a, "db") {
-				onPrimary = true
+	// firstPrimary: the first operation on state.db in f, and the first return (if any) that it does not dominate
+	firstPrimary := func(f *ssa.Function) (ssa.CallInstruction, string) {
+		var first ssa.CallInstruction
+		for _, ci := range km.CallsIn(f) {
+			onPrimary := false
+			for _, a := range km.CallArgs(ci.Common()) {
+				if a != nil && mentionsField(a, "db") {
+					onPrimary = true
+				}
+			}
+			if onPrimary && (first == nil || km.InstrDominates(ci, first)) {
+				first = ci
 			}
 		}
-		if onPrimary && (first == nil || km.InstrDominates(ci, first)) {
-			first = ci
+		if first == nil {
+			return nil, ""
+		}
+		early := ""
+		km.Instrs(f, func(in ssa.Instruction) {
+			if ret, ok := in.(*ssa.Return); ok && !km.InstrDominates(first, ret) && fnReachable(f, ret.Block()) {
+				early = posOf(c, ret)
+			}
+		})
+		return first, early
+	}
+	first, early := firstPrimary(fn)
+	if first == nil {
+		// the body moved into a helper new to the tree that is handed the state: the helper's first operation on
+		// the primary precedes its returns, and the call of the helper precedes the returns here
+		for _, ci := range km.CallsIn(fn) {
+			g := km.StaticCallee(ci.Common())
+			if g == nil || len(g.Blocks) == 0 || !c.InModule(g) || c.P.IsRecorded(g) {
+				continue
+			}
+			if f2, e2 := firstPrimary(g); f2 != nil {
+				first, early = ci, e2
+				km.Instrs(fn, func(in ssa.Instruction) {
+					if ret, ok := in.(*ssa.Return); ok && !km.InstrDominates(ci, ret) && fnReachable(fn, ret.Block()) {
+						early = posOf(c, ret)
+					}
+				})
+				break
+			}
 		}
 	}
 	if first == nil {
 		c.R.AnchorLost(rule, "operation on the primary database in DeleteSigned")
 		return
 	}
-	early := ""
-	km.Instrs(fn, func(in ssa.Instruction) {
-		if ret, ok := in.(*ssa.Return); ok && !km.InstrDominates(first, ret) && fnReachable(fn, ret.Block()) {
-			early = posOf(c, ret)
-		}
-	})
 	c.R.Add(rule, km.FuncName(fn), "eviction reaches the primary store", posOf(c, first), "no return before the first operation on the primary database", "return at "+early, early == "")
 }
